@@ -7,7 +7,7 @@ static void vb_buf_read(struct AbstractFile *p, char *s, int64_t n)
     __CPROVER_assert(n >= 0 && n <= 8 && (n == 0 || __CPROVER_w_ok(s, n)), "AbstractFile::read precondition: destination writable for n bytes");
     int64_t m = n;
     if (p->g + n > p->fileSize) { m = p->fileSize - p->g; p->rdstate = IOS_eofbit | IOS_failbit; }
-    else p->rdstate = IOS_goodbit;
+    else if (n > 0) p->rdstate = IOS_goodbit;
     if (m > 0) s[0] = (char)p->buf[p->g];
     if (m > 1) s[1] = (char)p->buf[p->g + 1];
     if (m > 2) s[2] = (char)p->buf[p->g + 2];
